@@ -391,14 +391,15 @@ pub fn analyse(case: &LoopCase, result: &Result<(), String>, d: &Driver, sel: u3
   Ok(())
 }
 
-fn gen_loop_case(src: &mut Src, which: u32, quick: bool) -> Option<LoopCase> {
+pub fn gen_loop_case(src: &mut Src, which: u32, quick: bool) -> Option<LoopCase> {
   let (fam, tablet_percent, timeout_percent) = match which {
     10 => (match src.weighted(&[35, 25, 20, 20]) { 0 => Family::General, 1 => Family::RepeatDense, 2 => Family::Tagged, _ => Family::AbsorbingDense }, if src.chance(35) { 12 } else { 0 }, 12),
-    11 => (Family::RepeatDense, if src.chance(25) { 8 } else { 0 }, 52),
+    11 => (Family::RepeatDense, if src.chance(45) { 10 } else { 0 }, 52),
     12 => (match src.weighted(&[40, 30, 30]) { 0 => Family::RepeatDense, 1 => Family::General, _ => Family::AbsorbingDense }, 30, 20),
     _ => (match src.weighted(&[40, 40, 20]) { 0 => Family::General, 1 => Family::RepeatDense, _ => Family::AbsorbingDense }, 15, 20),
   };
   let opts = LayoutOpts { allow_absorbing: true, max_alphabet: 8 };
+  let fam = if which != 11 && src.chance(4) { Family::Wide } else { fam };
   let mut g = loaded(gen_family(src, fam, &opts))?;
   let real_sleep = which == 11 && src.chance(if quick { 4 } else { 6 });
   if which == 11 {
@@ -417,6 +418,9 @@ fn gen_loop_case(src: &mut Src, which: u32, quick: bool) -> Option<LoopCase> {
     for m in g.layout.mappings.iter_mut() {
       if let Repeat::Special { keys, delay_ms, interval_ms } = &mut m.repeat {
         any_special = true;
+        if src.chance(20) {
+          m.to = vec![];
+        }
         if src.chance(60) {
           let n = src.below(4);
           *keys = src.distinct(&pool, n);
@@ -439,8 +443,23 @@ fn gen_loop_case(src: &mut Src, which: u32, quick: bool) -> Option<LoopCase> {
     }
     g = loaded(g)?;
   }
-  let hist = HistOpts { max_events: if src.chance(12) { 120 } else if quick { 30 } else { 80 }, max_held: 5, raw_percent: 7, release_all_percent: 0 };
-  let mut kb: Vec<Event> = gen_history(src, &g.alphabet, &hist).into_iter().filter_map(|s| match s { Step::Ev(e) => Some(e), _ => None }).collect();
+  let hist = HistOpts { max_events: if src.chance(12) { 120 } else if quick { 30 } else { 80 }, max_held: 5, raw_percent: 7, release_all_percent: 0, marathon_taps: 0 };
+  // scale diversity: a crowd of held keys (steps and release batches of 17+ events), and bursts
+  // far longer than any plausible per-wake-up bound (sizes around 256 and 512)
+  let crowd = if src.chance(4) { add_crowd(src, &mut g) } else { vec![] };
+  let mega: Option<usize> = if src.chance(2) { Some(src.pick(&[255usize, 256, 257, 258, 300, 511, 512, 513, 600])) } else { None };
+  let hist = if let Some(m) = mega { HistOpts { max_events: m + 200, ..hist } } else { hist };
+  let mut kb: Vec<Event> = gen_history_mixed(src, &g.layout, &g.alphabet, &hist, &crowd).into_iter().filter_map(|s| match s { Step::Ev(e) => Some(e), _ => None }).collect();
+  if let Some(m) = mega {
+    // pad with taps so that the burst is really that long
+    let mut i = 0;
+    while kb.len() < m + 8 {
+      let k = g.alphabet[i % g.alphabet.len()];
+      i += 1;
+      kb.push(Event::Pressed(k));
+      kb.push(Event::Released(k));
+    }
+  }
   if which == 11 && src.chance(75) {
     // make a Special mapping fire by construction: press its trigger keys somewhere in the history
     let specials: Vec<Mapping> = g.layout.mappings.iter().filter(|m| matches!(m.repeat, Repeat::Special { .. })).cloned().collect();
@@ -468,13 +487,109 @@ fn gen_loop_case(src: &mut Src, which: u32, quick: bool) -> Option<LoopCase> {
           ins.push(Event::Pressed(*t));
         }
       }
+      let n_ins = ins.len();
       for (i, e) in ins.into_iter().enumerate() {
         kb.insert(at + i, e);
       }
+      // and now and then the same chord once more a little later (release and press again)
+      if src.chance(50) {
+        let at2 = (at + n_ins + src.below(4)).min(kb.len());
+        kb.insert(at2, Event::Released(fk));
+        kb.insert(at2 + 1, Event::Pressed(fk));
+      }
+    }
+  }
+  if which == 11 && src.chance(35) {
+    // episodes: a Special mapping fires, ticks, something happens in between (tablet events -
+    // also redundant ones -, another key, a duplicate press), the same or another Special
+    // mapping fires again, more ticks
+    let specials: Vec<Mapping> = g.layout.mappings.iter().filter(|m| matches!(m.repeat, Repeat::Special { .. })).cloned().collect();
+    if !specials.is_empty() {
+      let mut kb: Vec<Event> = Vec::new();
+      let mut actions: Vec<Action> = Vec::new();
+      let arrive = |n: usize, tablet: Vec<bool>| Action::Arrive { kb: n, tablet, tablet_first: true, mid: vec![], spurious_kb: false };
+      // prefix: a few keys go down first (held modifiers that chords may overlap)
+      let n_pre = src.below(4);
+      let pre = src.distinct(&g.alphabet, n_pre);
+      for k in &pre {
+        kb.push(Event::Pressed(*k));
+      }
+      if n_pre > 0 {
+        actions.push(arrive(n_pre, vec![]));
+      }
+      let mut held: Vec<KeyCode> = pre.clone();
+      let m1 = src.pick(&specials);
+      let episodes = src.range(2, 3);
+      let mut m = m1.clone();
+      for ep in 0..episodes {
+        let fk = *m.from.last().unwrap();
+        let mut n = 0;
+        if held.contains(&fk) && src.chance(70) {
+          kb.push(Event::Released(fk));
+          held.retain(|x| *x != fk);
+          n += 1;
+        }
+        for t in &m.from {
+          if *t == fk || !held.contains(t) {
+            kb.push(Event::Pressed(*t));
+            if !held.contains(t) {
+              held.push(*t);
+            }
+            n += 1;
+          }
+        }
+        actions.push(arrive(n, vec![]));
+        for _ in 0..src.range(1, 4) {
+          actions.push(Action::TimedOut);
+        }
+        if ep + 1 < episodes {
+          match src.weighted(&[15, 25, 15, 10, 15, 20]) {
+            0 => {}
+            1 => actions.push(arrive(0, vec![false])),
+            2 => actions.push(arrive(0, vec![true, false])),
+            3 => {
+              actions.push(arrive(0, vec![true]));
+              actions.push(arrive(0, vec![false]));
+            }
+            4 => {
+              let k = src.pick(&g.alphabet);
+              kb.push(Event::Pressed(k));
+              kb.push(Event::Released(k));
+              held.retain(|x| *x != k);
+              actions.push(arrive(2, vec![]));
+            }
+            _ => {
+              if !held.is_empty() {
+                let k = src.pick(&held);
+                kb.push(Event::Pressed(k));
+                actions.push(arrive(1, vec![]));
+              }
+            }
+          }
+          if src.chance(30) {
+            m = src.pick(&specials);
+          }
+        }
+      }
+      let script = Script { kb_events: kb, actions, end_in_same_drain: src.chance(30), real_sleep: false, stall: None };
+      return Some(LoopCase { layout: g.layout, script, family: format!("{}+episodes", g.family) });
     }
   }
   let so = SchedOpts { tablet_percent, timeout_percent, allow_interrupt: true, max_batch: if which == 11 && src.chance(70) { 2 } else { 64 } };
-  let script = gen_script(src, kb, &so, real_sleep);
+  let mut script = gen_script(src, kb, &so, real_sleep);
+  if let Some(m) = mega {
+    // one notification carries the first m (or more) events
+    let total = script.kb_events.len();
+    let first = m.min(total);
+    let mut actions = vec![Action::Arrive { kb: first, tablet: vec![], tablet_first: false, mid: vec![], spurious_kb: false }];
+    if total > first {
+      actions.push(Action::Arrive { kb: total - first, tablet: vec![], tablet_first: false, mid: vec![], spurious_kb: false });
+    }
+    if src.chance(50) {
+      actions.push(Action::TimedOut);
+    }
+    script.actions = actions;
+  }
   Some(LoopCase { layout: g.layout, script, family: g.family })
 }
 
@@ -709,7 +824,7 @@ pub fn check_trace_prop(which: u32, cfg: &RunCfg, findings: &Findings) -> Report
     16,
     per_shard,
     64,
-    if quick { 260 } else { 480 },
+    if quick { 1000 } else { 1200 },
     |src: &mut Src| gen_loop_case(src, which, quick),
     |c: &Option<LoopCase>, stats: &mut Stats| {
       let c = match c {
@@ -752,6 +867,41 @@ pub fn check_trace_prop(which: u32, cfg: &RunCfg, findings: &Findings) -> Report
     }
     return rep;
   }
+  if which == 11 {
+    // stall slice: one poll blocks for seconds (stopped process, suspend) while a repeat is
+    // pending; afterwards the loop must still aim at the original grid fire + delay + n*interval
+    let stalls: Vec<u64> = if quick { vec![5_300; 16] } else { vec![1_200, 2_500, 5_300, 5_300, 5_300, 5_300, 6_000, 6_000, 10_500, 10_500, 5_300, 5_300, 2_500, 1_200, 5_300, 5_300] };
+    let results: Vec<Option<(LoopCase, Violation)>> = par_map(16, 16, |i| {
+      use crate::keys::KeyCode::*;
+      let interval = [200, 150, 333, 90][i % 4];
+      let layout = Layout { mappings: vec![
+        Mapping { from: vec![A], to: vec![F13], repeat: Repeat::Special { keys: if i % 2 == 0 { vec![F20] } else { vec![LEFTCTRL, F20] }, delay_ms: 40, interval_ms: interval }, absorbing: vec![] },
+        Mapping { from: vec![B], to: vec![F14], repeat: Repeat::Normal, absorbing: vec![] },
+      ] };
+      let mut actions = vec![Action::Arrive { kb: 1, tablet: vec![], tablet_first: false, mid: vec![], spurious_kb: false }, Action::TimedOut, Action::TimedOut];
+      for _ in 0..(3 + i % 4) {
+        actions.push(Action::TimedOut);
+      }
+      actions.push(Action::Arrive { kb: 1, tablet: vec![], tablet_first: false, mid: vec![], spurious_kb: false });
+      let script = Script { kb_events: vec![Event::Pressed(A), Event::Released(A)], actions, end_in_same_drain: false, real_sleep: false, stall: Some((2, stalls[i])) };
+      let c = LoopCase { layout, script, family: "stall".into() };
+      let mut f = LoopFacts::default();
+      match run_guarded(|| run_loop_case(which, &c, &mut f)) {
+        Ok(()) => None,
+        Err(v) => Some((c, v)),
+      }
+    });
+    rep.stats.evaluations += 16;
+    rep.stats.count("stall-cases", 16);
+    if let Some((c, v)) = results.into_iter().flatten().next() {
+      if findings.is_known(&name, &v).is_none() {
+        let path = write_replay(&name, &v, &c.to_json());
+        rep.violations.push((v, path));
+        return rep;
+      }
+    }
+  }
+  crate::fuzzstage::stage(&mut rep, cfg, "fz_loop", which, 800_000, 900);
   rep.assumptions = vec![
     "the scripted driver models two edge-triggered devices: readiness is reported once per arrival; an unread event whose readiness was already reported is lost if the loop polls again".to_string(),
     "the twin mapper (same layout, same code) defines the expected step outputs; the mapper itself is checked by C01-C09 and C19".to_string(),
@@ -840,7 +990,7 @@ pub fn check_c20(cfg: &RunCfg, _findings: &Findings) -> Report {
     16,
     if quick { 2_000 } else { 30_000 },
     64,
-    if quick { 260 } else { 400 },
+    if quick { 1000 } else { 1200 },
     |src: &mut Src| {
       let c = gen_loop_case(src, 20, true);
       // decisions for the subset of faults beyond 64 calls come from the same tape
